@@ -767,12 +767,12 @@ spif_ustr_sprintf(spif_ustr_t self, spif_charptr_t format, ...)
     va_list ap;
 
     ASSERT_RVAL(!SPIF_USTR_ISNULL(self), FALSE);
+    /* A NULL format is refused before anything is done to self. */
+    REQUIRE_RVAL(format != (spif_charptr_t) NULL, FALSE);
     if (self->s != (spif_charptr_t) NULL) {
         spif_ustr_done(self);
     }
-    if (!format) {
-        return FALSE;
-    } else if (*format == 0) {
+    if (*format == 0) {
         return TRUE;
     } else {
         int c;
